@@ -2,15 +2,15 @@
   LzProofs.GenBUPHistRun — HISTORIES of translated operations of the bucket parser BUP, and C01/C02/C03 stated about the
   translation of the Go text.  No sorry, no axioms of its own.
 
-  `GOpU`   one call on a Go `*bucketParser`: `Write(p)`, `ReadFrom(r)`, `Parse(&blk, flags)`, `Reset(data)` — the methods
-           of `bucketParser` that `tools/extract` translates (LzProofs/GenBUPHist.lean explains the promotion through the
-           embedded structs).  THERE IS NO SHRINK: `bucketDictionary.Shrink` / `bucketHash.shiftOffsets` are not
-           translated, so no theorem here says anything about a history that contains `Shrink()`.  `Parse(nil, …)` is
-           excluded by the topic assumption `blk != nil`.  The arguments are Go VALUES: `p`, `data : Gen.Slice`,
+  `GOpU`   one call on a Go `*bucketParser`: `Write(p)`, `ReadFrom(r)`, `Parse(&blk, flags)`, `Reset(data)`, `Shrink()` — the
+           methods of `bucketParser` that `tools/extract` translates (LzProofs/GenBUPHist.lean explains the promotion through
+           the embedded structs).  `Shrink()` is the translated `bucketDictionary.Shrink` (LzProofs/GenBUPShrink.lean) around
+           the OPAQUE method `bucketHash.shiftOffsets` = the parameter `SO` under the hypothesis `ShiftSpec SO` (its
+           specification against the model's `BucketT.shiftOffsets`).  `Parse(nil, …)`: LzProofs/GenBUPHistNil.lean.  The arguments are Go VALUES: `p`, `data : Gen.Slice`,
            `blk : Gen.Block'`, `flags : Int`; `r : Reader` is the model's scripted reader (it can mimic every sequence of
            `(n ≤ len(p), err)` answers of an `io.Reader`, incl. `(0, nil)`).
   `GResU`  what the call returns (and, for `Parse`, the block after the call).
-  `runU RF grow fuel lcp s ops`   executes the TRANSLATED functions one after the other, threading the Go state; `RF` is
+  `runU RF grow fuel lcp SO s ops`   executes the TRANSLATED functions one after the other, threading the Go state; `RF` is
            the rendering of `(*ParserBuffer).ReadFrom` (in the `…_go_text_…` theorems: `GenHPHist.rfGo extra`, the
            translated function run against the scripted reader), `grow` the capacity policy of `append`, `fuel` the bound
            handed to the loops of `Parse`, `lcp` the opaque callee of `Parse` (hypothesis `LcpSpec lcp`).
@@ -30,7 +30,7 @@
                      occur in the statements.
   (C19: LzProofs/GenBUPHistC19.lean.)
 -/
-import LzProofs.GenBUPHist
+import LzProofs.GenBUPShrink
 
 set_option linter.unusedSimpArgs false
 set_option linter.unusedVariables false
@@ -39,12 +39,13 @@ namespace LZ.GenBUPHist
 open LZ LZ.Gen LZ.GenBuf LZ.GenHash LZ.GenHPParse LZ.GenBUPParse LZ.GenProps
 open LZ.GenHPHist (BCOK RFun RFSpec genErr rfGo rfGo_spec bind_ok' parseErr_ok_iff step_parse_fst step_reset_fst)
 
-/-- one call on a Go `*bucketParser` (no `Shrink`: not translated) -/
+/-- one call on a Go `*bucketParser` -/
 inductive GOpU where
   | write (p : Slice)
   | readFrom (r : Reader)
   | parse (blk : Gen.Block') (flags : Int)
   | reset (data : Slice)
+  | shrink
 
 /-- what the call returned -/
 inductive GResU where
@@ -53,6 +54,7 @@ inductive GResU where
   | readFrom (n : Int) (err : Gen.Err)
   | parse (blk : Gen.Block') (n : Int) (err : Gen.Err)
   | reset (err : Gen.Err)
+  | shrink (delta : Int)
 deriving Repr, DecidableEq
 
 /-- the domain of the theorems: Go slices have `len ≤ cap`; `flags ≥ 0` -/
@@ -61,23 +63,25 @@ def GOpU.WF : GOpU → Prop
   | .readFrom _ => True
   | .parse _ flags => 0 ≤ flags
   | .reset data => SWF data
+  | .shrink => True
 
 /-- one call, on the translated functions -/
-def stepU (RF : RFun) (grow : Nat → Nat → Nat) (fuel : Nat) (lcp : Slice → Slice → Int) (s : Gen.bucketParser) :
+def stepU (RF : RFun) (grow : Nat → Nat → Nat) (fuel : Nat) (lcp : Slice → Slice → Int) (SO : SOFun) (s : Gen.bucketParser) :
     GOpU → Res (Gen.bucketParser × GResU)
   | .write p => Res.bind (bup_Write grow s p) fun r => Res.ok (r.1, .write r.2.1 r.2.2)
   | .readFrom rd => Res.bind (bup_ReadFrom RF s rd) fun x => Res.ok (x.1, .readFrom x.2.2.1 x.2.2.2)
   | .parse blk flags =>
     Res.bind (bucketParser_Parse grow fuel lcp s blk flags) fun r => Res.ok (r.1, .parse r.2.1 r.2.2.1 r.2.2.2)
   | .reset data => Res.bind (bup_Reset s data) fun r => Res.ok (r.1, .reset r.2)
+  | .shrink => Res.bind (bup_Shrink SO s) fun r => Res.ok (r.1, .shrink r.2)
 
 /-- a history of calls; the results in order -/
-def runU (RF : RFun) (grow : Nat → Nat → Nat) (fuel : Nat) (lcp : Slice → Slice → Int) :
+def runU (RF : RFun) (grow : Nat → Nat → Nat) (fuel : Nat) (lcp : Slice → Slice → Int) (SO : SOFun) :
     Gen.bucketParser → List GOpU → Res (Gen.bucketParser × List GResU)
   | s, [] => Res.ok (s, [])
   | s, op :: ops =>
-    Res.bind (stepU RF grow fuel lcp s op) fun r =>
-    Res.bind (runU RF grow fuel lcp r.1 ops) fun q => Res.ok (q.1, r.2 :: q.2)
+    Res.bind (stepU RF grow fuel lcp SO s op) fun r =>
+    Res.bind (runU RF grow fuel lcp SO r.1 ops) fun q => Res.ok (q.1, r.2 :: q.2)
 
 /-- the model operation a Go call stands for -/
 def GOpU.abs : GOpU → POp
@@ -85,10 +89,7 @@ def GOpU.abs : GOpU → POp
   | .readFrom r => .readFrom r
   | .parse _ flags => .parse flags.toNat
   | .reset data => .reset data.data (data.cap - data.len)
-
-/-- the abstracted history contains no `Shrink` -/
-theorem abs_ne_shrink (op : GOpU) : op.abs ≠ .shrink := by
-  cases op <;> intro h <;> cases h
+  | .shrink => .shrink
 
 /-- the result of one Go call equals the result of the model operation on the model state `m` -/
 def resAgreeU (m : Parser) : GOpU → GResU → Prop
@@ -98,6 +99,7 @@ def resAgreeU (m : Parser) : GOpU → GResU → Prop
     n = ((m.parse flags.toNat).2.1 : Int) ∧ e = parseErr (m.parse flags.toNat).2.2.1 ∧
     ofBlock blk' = (m.parse flags.toNat).2.2.2 ∧ SWF blk'.Literals
   | .reset data, .reset e => errOfReset e = some (m.reset data.data (data.cap - data.len)).2
+  | .shrink, .shrink d => d = (m.shrink.2 : Int)
   | _, _ => False
 
 /-- … along a history -/
@@ -124,9 +126,10 @@ def ghostRunU : Ghost → List GOpU → List GResU → Ghost
 /-! ## one step -/
 
 theorem stepU_sim {bc : BufCfg} (hbc : BCOK bc) (RF : RFun) (hRF : RFSpec RF) (grow : Nat → Nat → Nat) (fuel : Nat)
-    (lcp : Slice → Slice → Int) (hlcp : LcpSpec lcp) (hfuel : bc.bufferSize + 3 ≤ fuel)
+    (lcp : Slice → Slice → Int) (hlcp : LcpSpec lcp)
+    (SO : SOFun) (hSO : ShiftSpec SO) (hfuel : bc.bufferSize + 3 ≤ fuel)
     (t : Gen.bucketParser) (g : Ghost) (h : HistOKU bc t) (op : GOpU) (hop : op.WF) :
-    ∃ t' r, stepU RF grow fuel lcp t op = Res.ok (t', r) ∧ HistOKU bc t' ∧
+    ∃ t' r, stepU RF grow fuel lcp SO t op = Res.ok (t', r) ∧ HistOKU bc t' ∧
       ofBUPs t' = (step (ofBUPs t, g) op.abs).1 ∧ ghostStepU g op r = (step (ofBUPs t, g) op.abs).2 ∧
       resAgreeU (ofBUPs t) op r := by
   cases op with
@@ -155,14 +158,19 @@ theorem stepU_sim {bc : BufCfg} (hbc : BCOK bc) (RF : RFun) (hRF : RFSpec RF) (g
     · rw [GOpU.abs, step_reset_fst]; exact h3
     · simp only [ghostStepU, step, GOpU.abs, errOfReset_ok_iff e _ h4]
       split <;> rfl
+  | shrink =>
+    obtain ⟨t', h1, h2, h3⟩ := hist_shrink hbc SO hSO t h
+    refine ⟨t', .shrink _, ?_, h2, h3, rfl, rfl⟩
+    simp only [stepU, h1]; rfl
 
 /-! ## histories -/
 
 /-- **Simulation**, from any Go state satisfying the invariant. -/
 theorem runU_sim {bc : BufCfg} (hbc : BCOK bc) (RF : RFun) (hRF : RFSpec RF) (grow : Nat → Nat → Nat) (fuel : Nat)
-    (lcp : Slice → Slice → Int) (hlcp : LcpSpec lcp) (hfuel : bc.bufferSize + 3 ≤ fuel) :
+    (lcp : Slice → Slice → Int) (hlcp : LcpSpec lcp)
+    (SO : SOFun) (hSO : ShiftSpec SO) (hfuel : bc.bufferSize + 3 ≤ fuel) :
     ∀ (ops : List GOpU) (t : Gen.bucketParser) (g : Ghost), HistOKU bc t → (∀ op ∈ ops, op.WF) →
-      ∃ t' rs, runU RF grow fuel lcp t ops = Res.ok (t', rs) ∧ HistOKU bc t' ∧
+      ∃ t' rs, runU RF grow fuel lcp SO t ops = Res.ok (t', rs) ∧ HistOKU bc t' ∧
         ofBUPs t' = (runOps (ofBUPs t, g) (ops.map GOpU.abs)).1 ∧
         ghostRunU g ops rs = (runOps (ofBUPs t, g) (ops.map GOpU.abs)).2 ∧
         ResultsAgreeU (ofBUPs t, g) ops rs := by
@@ -172,14 +180,14 @@ theorem runU_sim {bc : BufCfg} (hbc : BCOK bc) (RF : RFun) (hRF : RFSpec RF) (gr
   | cons op ops ih =>
     intro t g h hwf
     obtain ⟨t1, r, h1, h2, h3, h4, h5⟩ :=
-      stepU_sim hbc RF hRF grow fuel lcp hlcp hfuel t g h op (hwf op (List.mem_cons_self ..))
+      stepU_sim hbc RF hRF grow fuel lcp hlcp SO hSO hfuel t g h op (hwf op (List.mem_cons_self ..))
     obtain ⟨t', rs, k1, k2, k3, k4, k5⟩ := ih t1 (ghostStepU g op r) h2 (fun o ho => hwf o (List.mem_cons_of_mem _ ho))
     have hsg : step (ofBUPs t, g) op.abs = (ofBUPs t1, ghostStepU g op r) := by
       rw [h3, h4]
     refine ⟨t', r :: rs, ?_, k2, ?_, ?_, h5, ?_⟩
-    · show Res.bind (stepU RF grow fuel lcp t op) _ = _
+    · show Res.bind (stepU RF grow fuel lcp SO t op) _ = _
       rw [h1]
-      show Res.bind (runU RF grow fuel lcp t1 ops) _ = _
+      show Res.bind (runU RF grow fuel lcp SO t1 ops) _ = _
       rw [k1]; rfl
     · show _ = (runOps (step (ofBUPs t, g) op.abs) (ops.map GOpU.abs)).1
       rw [hsg]; exact k3
@@ -189,30 +197,30 @@ theorem runU_sim {bc : BufCfg} (hbc : BCOK bc) (RF : RFun) (hRF : RFSpec RF) (gr
       rw [hsg]; exact k5
 
 /-- the states a history passes through are the final states of its prefixes -/
-theorem runU_append (RF : RFun) (grow : Nat → Nat → Nat) (fuel : Nat) (lcp : Slice → Slice → Int) :
+theorem runU_append (RF : RFun) (grow : Nat → Nat → Nat) (fuel : Nat) (lcp : Slice → Slice → Int) (SO : SOFun) :
     ∀ (a b : List GOpU) (s : Gen.bucketParser),
-    runU RF grow fuel lcp s (a ++ b) =
-      Res.bind (runU RF grow fuel lcp s a) fun r =>
-      Res.bind (runU RF grow fuel lcp r.1 b) fun q => Res.ok (q.1, r.2 ++ q.2) := by
+    runU RF grow fuel lcp SO s (a ++ b) =
+      Res.bind (runU RF grow fuel lcp SO s a) fun r =>
+      Res.bind (runU RF grow fuel lcp SO r.1 b) fun q => Res.ok (q.1, r.2 ++ q.2) := by
   intro a
   induction a with
   | nil =>
     intro b s
     simp only [List.nil_append, runU, bind_ok', List.nil_append]
-    cases runU RF grow fuel lcp s b with
+    cases runU RF grow fuel lcp SO s b with
     | ok v => rfl
     | panic => rfl
     | fuel => rfl
   | cons op a ih =>
     intro b s
     simp only [List.cons_append, runU]
-    cases hs : stepU RF grow fuel lcp s op with
+    cases hs : stepU RF grow fuel lcp SO s op with
     | ok v =>
       simp only [bind_ok', ih]
-      cases runU RF grow fuel lcp v.1 a with
+      cases runU RF grow fuel lcp SO v.1 a with
       | ok w =>
         simp only [bind_ok']
-        cases runU RF grow fuel lcp w.1 b with
+        cases runU RF grow fuel lcp SO w.1 b with
         | ok u => rfl
         | panic => rfl
         | fuel => rfl
@@ -225,10 +233,11 @@ theorem runU_append (RF : RFun) (grow : Nat → Nat → Nat) (fuel : Nat) (lcp :
 theorem gen_bup_history_rf (cfg : Gen.BUPConfig) (s0 : Gen.bucketParser)
     (hinit : bucketParser_init default cfg = Res.ok (s0, Gen.Err.ok))
     (RF : RFun) (hRF : RFSpec RF) (grow : Nat → Nat → Nat) (fuel : Nat) (lcp : Slice → Slice → Int) (hlcp : LcpSpec lcp)
+    (SO : SOFun) (hSO : ShiftSpec SO)
     (hfuel : s0.bucketDictionary.ParserBuffer.BufConfig.BufferSize.toNat + 3 ≤ fuel)
     (ops : List GOpU) (hwf : ∀ op ∈ ops, op.WF) :
     ∃ p t rs, newParser .BUP (ofBUP cfg) = some p ∧ ofBUPs s0 = p ∧
-      runU RF grow fuel lcp s0 ops = Res.ok (t, rs) ∧ ParseOKU t ∧
+      runU RF grow fuel lcp SO s0 ops = Res.ok (t, rs) ∧ ParseOKU t ∧
       ofBUPs t = (runOps (p, Ghost.init) (ops.map GOpU.abs)).1 ∧
       ghostRunU Ghost.init ops rs = (runOps (p, Ghost.init) (ops.map GOpU.abs)).2 ∧
       ResultsAgreeU (p, Ghost.init) ops rs := by
@@ -236,7 +245,7 @@ theorem gen_bup_history_rf (cfg : Gen.BUPConfig) (s0 : Gen.bucketParser)
   have hf : p.buf.cfg.bufferSize + 3 ≤ fuel := by
     have : p.buf.cfg = ofCfg s0.bucketDictionary.ParserBuffer.BufConfig := hH.cfg.symm
     rw [this]; exact hfuel
-  obtain ⟨t, rs, k1, k2, k3, k4, k5⟩ := runU_sim hbc RF hRF grow fuel lcp hlcp hf ops s0 Ghost.init hH hwf
+  obtain ⟨t, rs, k1, k2, k3, k4, k5⟩ := runU_sim hbc RF hRF grow fuel lcp hlcp SO hSO hf ops s0 Ghost.init hH hwf
   rw [h2] at k3 k4 k5
   exact ⟨p, t, rs, hp, h2, k1, k2.pok, k3, k4, k5⟩
 
@@ -248,35 +257,37 @@ theorem gen_bup_history_rf (cfg : Gen.BUPConfig) (s0 : Gen.bucketParser)
 theorem gen_bup_history (cfg : Gen.BUPConfig) (s0 : Gen.bucketParser)
     (hinit : bucketParser_init default cfg = Res.ok (s0, Gen.Err.ok))
     (extra : Nat) (grow : Nat → Nat → Nat) (fuel : Nat) (lcp : Slice → Slice → Int) (hlcp : LcpSpec lcp)
+    (SO : SOFun) (hSO : ShiftSpec SO)
     (hfuel : s0.bucketDictionary.ParserBuffer.BufConfig.BufferSize.toNat + 3 ≤ fuel)
     (ops : List GOpU) (hwf : ∀ op ∈ ops, op.WF) :
     ∃ p t rs, newParser .BUP (ofBUP cfg) = some p ∧ ofBUPs s0 = p ∧
-      runU (rfGo extra) grow fuel lcp s0 ops = Res.ok (t, rs) ∧ ParseOKU t ∧
+      runU (rfGo extra) grow fuel lcp SO s0 ops = Res.ok (t, rs) ∧ ParseOKU t ∧
       ofBUPs t = (runOps (p, Ghost.init) (ops.map GOpU.abs)).1 ∧
       ghostRunU Ghost.init ops rs = (runOps (p, Ghost.init) (ops.map GOpU.abs)).2 ∧
       ResultsAgreeU (p, Ghost.init) ops rs :=
-  gen_bup_history_rf cfg s0 hinit (rfGo extra) (rfGo_spec extra) grow fuel lcp hlcp hfuel ops hwf
+  gen_bup_history_rf cfg s0 hinit (rfGo extra) (rfGo_spec extra) grow fuel lcp hlcp SO hSO hfuel ops hwf
 
 /-- … and `ParseOKU` holds in EVERY state the history passes through: after every prefix `ops.take k` the run is
     `Res.ok` with a state satisfying `ParseOKU`, and the whole run continues from that state (`runU_append`). -/
 theorem gen_bup_history_states (cfg : Gen.BUPConfig) (s0 : Gen.bucketParser)
     (hinit : bucketParser_init default cfg = Res.ok (s0, Gen.Err.ok))
     (extra : Nat) (grow : Nat → Nat → Nat) (fuel : Nat) (lcp : Slice → Slice → Int) (hlcp : LcpSpec lcp)
+    (SO : SOFun) (hSO : ShiftSpec SO)
     (hfuel : s0.bucketDictionary.ParserBuffer.BufConfig.BufferSize.toNat + 3 ≤ fuel)
     (ops : List GOpU) (hwf : ∀ op ∈ ops, op.WF) (k : Nat) :
-    ∃ tk rk t rs', runU (rfGo extra) grow fuel lcp s0 (ops.take k) = Res.ok (tk, rk) ∧ ParseOKU tk ∧
-      runU (rfGo extra) grow fuel lcp tk (ops.drop k) = Res.ok (t, rs') ∧
-      runU (rfGo extra) grow fuel lcp s0 ops = Res.ok (t, rk ++ rs') := by
+    ∃ tk rk t rs', runU (rfGo extra) grow fuel lcp SO s0 (ops.take k) = Res.ok (tk, rk) ∧ ParseOKU tk ∧
+      runU (rfGo extra) grow fuel lcp SO tk (ops.drop k) = Res.ok (t, rs') ∧
+      runU (rfGo extra) grow fuel lcp SO s0 ops = Res.ok (t, rk ++ rs') := by
   obtain ⟨p, hp, h2, hbc, hH⟩ := hist_init cfg s0 hinit
   have hf : p.buf.cfg.bufferSize + 3 ≤ fuel := by
     have : p.buf.cfg = ofCfg s0.bucketDictionary.ParserBuffer.BufConfig := hH.cfg.symm
     rw [this]; exact hfuel
-  obtain ⟨tk, rk, k1, k2, -⟩ := runU_sim hbc (rfGo extra) (rfGo_spec extra) grow fuel lcp hlcp hf (ops.take k) s0
+  obtain ⟨tk, rk, k1, k2, -⟩ := runU_sim hbc (rfGo extra) (rfGo_spec extra) grow fuel lcp hlcp SO hSO hf (ops.take k) s0
     Ghost.init hH (fun o ho => hwf o (List.mem_of_mem_take ho))
-  obtain ⟨t, rs', j1, -⟩ := runU_sim hbc (rfGo extra) (rfGo_spec extra) grow fuel lcp hlcp hf (ops.drop k) tk
+  obtain ⟨t, rs', j1, -⟩ := runU_sim hbc (rfGo extra) (rfGo_spec extra) grow fuel lcp hlcp SO hSO hf (ops.drop k) tk
     Ghost.init k2 (fun o ho => hwf o (List.mem_of_mem_drop ho))
   refine ⟨tk, rk, t, rs', k1, k2.pok, j1, ?_⟩
-  have := runU_append (rfGo extra) grow fuel lcp (ops.take k) (ops.drop k) s0
+  have := runU_append (rfGo extra) grow fuel lcp SO (ops.take k) (ops.drop k) s0
   rw [List.take_append_drop, k1, bind_ok'] at this
   simp only at this
   rw [this, j1]; rfl
@@ -293,12 +304,13 @@ theorem gen_bup_history_states (cfg : Gen.BUPConfig) (s0 : Gen.bucketParser)
 theorem C01_go_text_bup (cfg : Gen.BUPConfig) (s0 : Gen.bucketParser)
     (hinit : bucketParser_init default cfg = Res.ok (s0, Gen.Err.ok))
     (extra : Nat) (grow : Nat → Nat → Nat) (fuel : Nat) (lcp : Slice → Slice → Int) (hlcp : LcpSpec lcp)
+    (SO : SOFun) (hSO : ShiftSpec SO)
     (hfuel : s0.bucketDictionary.ParserBuffer.BufConfig.BufferSize.toNat + 3 ≤ fuel)
     (ops : List GOpU) (hwf : ∀ op ∈ ops, op.WF) :
-    ∃ t rs, runU (rfGo extra) grow fuel lcp s0 ops = Res.ok (t, rs) ∧
+    ∃ t rs, runU (rfGo extra) grow fuel lcp SO s0 ops = Res.ok (t, rs) ∧
       decode [] (ghostRunU Ghost.init ops rs).log =
         some ((ghostRunU Ghost.init ops rs).fed.take (ghostRunU Ghost.init ops rs).consumed) := by
-  obtain ⟨p, t, rs, hp, -, h1, -, -, h4, -⟩ := gen_bup_history cfg s0 hinit extra grow fuel lcp hlcp hfuel ops hwf
+  obtain ⟨p, t, rs, hp, -, h1, -, -, h4, -⟩ := gen_bup_history cfg s0 hinit extra grow fuel lcp hlcp SO hSO hfuel ops hwf
   refine ⟨t, rs, h1, ?_⟩
   rw [h4]
   exact C01_roundtrip .BUP (ofBUP cfg) p hp (histHyp_of_ne .BUP p (by decide)) (ops.map GOpU.abs)
@@ -309,14 +321,15 @@ theorem C01_go_text_bup (cfg : Gen.BUPConfig) (s0 : Gen.bucketParser)
 theorem C02_go_text_bup (cfg : Gen.BUPConfig) (s0 : Gen.bucketParser)
     (hinit : bucketParser_init default cfg = Res.ok (s0, Gen.Err.ok))
     (extra : Nat) (grow : Nat → Nat → Nat) (fuel : Nat) (lcp : Slice → Slice → Int) (hlcp : LcpSpec lcp)
+    (SO : SOFun) (hSO : ShiftSpec SO)
     (hfuel : s0.bucketDictionary.ParserBuffer.BufConfig.BufferSize.toNat + 3 ≤ fuel)
     (ops : List GOpU) (hwf : ∀ op ∈ ops, op.WF) :
-    ∃ t rs, runU (rfGo extra) grow fuel lcp s0 ops = Res.ok (t, rs) ∧
+    ∃ t rs, runU (rfGo extra) grow fuel lcp SO s0 ops = Res.ok (t, rs) ∧
       LogAll (fun pos e => ∀ n fl blk, e = .block n fl blk →
         SeqsAll (SeqWF s0.bucketDictionary.ParserBuffer.BufConfig.WindowSize.toNat
           (Min.min 3 s0.BUPConfig.InputLen.toNat)) pos blk.seqs ∧
         litSum blk.seqs ≤ blk.lits.length) 0 (ghostRunU Ghost.init ops rs).log := by
-  obtain ⟨p, t, rs, hp, h0, h1, -, -, h4, -⟩ := gen_bup_history cfg s0 hinit extra grow fuel lcp hlcp hfuel ops hwf
+  obtain ⟨p, t, rs, hp, h0, h1, -, -, h4, -⟩ := gen_bup_history cfg s0 hinit extra grow fuel lcp hlcp SO hSO hfuel ops hwf
   subst h0
   refine ⟨t, rs, h1, ?_⟩
   rw [h4]
@@ -328,9 +341,10 @@ theorem C02_go_text_bup (cfg : Gen.BUPConfig) (s0 : Gen.bucketParser)
 theorem C03_go_text_bup (cfg : Gen.BUPConfig) (s0 : Gen.bucketParser)
     (hinit : bucketParser_init default cfg = Res.ok (s0, Gen.Err.ok))
     (extra : Nat) (grow : Nat → Nat → Nat) (fuel : Nat) (lcp : Slice → Slice → Int) (hlcp : LcpSpec lcp)
+    (SO : SOFun) (hSO : ShiftSpec SO)
     (hfuel : s0.bucketDictionary.ParserBuffer.BufConfig.BufferSize.toNat + 3 ≤ fuel)
     (ops : List GOpU) (hwf : ∀ op ∈ ops, op.WF) :
-    ∃ t rs, runU (rfGo extra) grow fuel lcp s0 ops = Res.ok (t, rs) ∧
+    ∃ t rs, runU (rfGo extra) grow fuel lcp SO s0 ops = Res.ok (t, rs) ∧
       let g := ghostRunU Ghost.init ops rs
       LogAll (fun pos e => 1 ≤ e.n ∧ e.n ≤ s0.bucketDictionary.ParserBuffer.BufConfig.BlockSize.toNat ∧
         pos + e.n ≤ g.fed.length ∧
@@ -338,7 +352,7 @@ theorem C03_go_text_bup (cfg : Gen.BUPConfig) (s0 : Gen.bucketParser)
           blk.len = n ∧ expand (g.fed.take pos) blk = some (g.fed.take (pos + n)) ∧
           (fl % 2 = 1 → blk.seqs ≠ [] → blk.lits.length = litSum blk.seqs ∧ n = seqsSpan blk.seqs)) 0 g.log ∧
       logSpan g.log = g.consumed ∧ g.consumed ≤ g.fed.length := by
-  obtain ⟨p, t, rs, hp, h0, h1, -, -, h4, -⟩ := gen_bup_history cfg s0 hinit extra grow fuel lcp hlcp hfuel ops hwf
+  obtain ⟨p, t, rs, hp, h0, h1, -, -, h4, -⟩ := gen_bup_history cfg s0 hinit extra grow fuel lcp hlcp SO hSO hfuel ops hwf
   subst h0
   refine ⟨t, rs, h1, ?_⟩
   intro g
